@@ -57,7 +57,10 @@ std::string BlockingWorld::make_reply(ServedRequest &sr) {
 
 bool BlockingWorld::on_block_tcp(Conn &c, BlockWhat w) {
 	if (c.ep != aggr_ep && c.ep != ext_ep) return false;
-	if (w == BLOCK_SEND) { return !N.srv_take(c, 1 << 20).empty(); }
+	if (w == BLOCK_SEND) {
+		if (env.armed && env.fault == 4) { fault_fired = true; K.count("fault.peer_never_reads"); return false; }
+		return !N.srv_take(c, 1 << 20).empty();
+	}
 	if (w != BLOCK_RECV) return false;
 	if (!replied_) {
 		std::string av = N.srv_peek(c);
